@@ -66,12 +66,11 @@ class C07(Prop):
                 'a model of repr() and of literal evaluation that is itself proved to round-trip). C07_str_total / C07_describe_total / '
                 'C07_mismatch_error_str_total - in an error monad whose failure sources are those of the code (inherited Matcher.__str__ per a table '
                 'extracted from the tree on every run, unset Mismatch._description, %-formatting arity), str(matcher), describe(), get_details() and '
-                'str(MismatchError) (verbose or not, annotated or not) succeed for every well-formed stock matcher expression of any depth and every value. '
+                'str(MismatchError) (verbose or not, annotated or not) succeed for every stock matcher expression of any depth and every value; a well-formed MatchesPredicate returns its Mismatch for every matchee, tuples included. '
                 'C07_assertThat_iff / C07_expectThat / C07_details_nonclobbering - assertThat and assert_that raise MismatchError iff match() returned a '
                 'mismatch; expectThat never raises, forces the failure; details are attached under fresh names (pigeonhole proof for addDetailUniqueName). '
                 'Tied to the code by a differential check (real str()/describe()/MismatchError, text_repr vs ast.literal_eval, real TestCase runs).',
-        'note': 'partial: finding predicateTupleMatchee (MatchesPredicate on a tuple matchee raises TypeError while building its Mismatch) excluded; '
-                'repr/pformat/%-formatting of values assumed total; describe() of opaque-leaf mismatches tested, not proved; pyRepr/pyEval are models of '
+        'note': 'no finding class left (MatchesPredicate formats a tuple matchee as one value since the fix); repr/pformat/%-formatting of values assumed total; describe() of opaque-leaf mismatches tested, not proved; pyRepr/pyEval are models of '
                 'CPython validated against repr/ast.literal_eval; the end-of-run outcome is a three-line model of RunTest',
         'technique': 'Lean 4: list-level proof of the text_repr round trip (hex codec, escape atoms, replace state machine, triple-quote loop), structural '
                      'induction over matcher expressions in an error monad with a table regenerated from the tree, pigeonhole argument for unique detail '
